@@ -104,7 +104,7 @@ def assign_types(rng, hist, p_int=0.3):
     for i, op in enumerate(hist['ops']):
         ty = {}
         t = op[0]
-        if t == 'add':
+        if t in ('add', 'add_obj'):
             st = op[2]
             if not math.isinf(op[3]):
                 scalar(op, 3, 'R', ty, lo=5.0)
@@ -157,7 +157,37 @@ def assign_types(rng, hist, p_int=0.3):
         if ty:
             types[str(i)] = ty
     hist['types'] = types
+    return place_ready(hist)
+
+
+def place_ready(hist):
+    """a ready-made surface object is handed over sitting at the running sum of the thicknesses given before it
+    (that is the caller's job for a ready-made object)"""
+    acc, first = 0.0, True
+    for op in hist['ops'][:hist.get('nbuild', len(hist['ops']))]:
+        if op[0] not in ('add', 'add_obj'):
+            continue
+        if op[1] == 0:
+            continue
+        if op[0] == 'add_obj':
+            op[9] = acc
+        acc += op[6]
     return hist
+
+
+def route_histogram(hists):
+    """build routes / entry points exercised (for the evidence file)"""
+    out = {'route_reuse_after_reset': 0, 'ready_made_surface_objects': 0, 'explicit_ImageSurface': 0,
+           'immersed_object_space': 0, 'aperture': {}, 'histories_with_ready_made': 0}
+    for h in hists:
+        out['route_reuse_after_reset'] += int(h.get('route') == 'reuse')
+        ro = [o for o in h['ops'] if o[0] == 'add_obj']
+        out['ready_made_surface_objects'] += sum(1 for o in ro if o[2] != 'image')
+        out['explicit_ImageSurface'] += sum(1 for o in ro if o[2] == 'image')
+        out['histories_with_ready_made'] += int(bool(ro))
+        out['immersed_object_space'] += int(isinstance(h['ops'][0][7], list))
+        out['aperture'][h['ap'][0]] = out['aperture'].get(h['ap'][0], 0) + 1
+    return out
 
 
 def type_histogram(hists):
@@ -188,7 +218,9 @@ def gen_history(rng, nsurf=None, nedits=None, exotic=True, build_only=False, foc
     finite = rng.random() < 0.4
     ops = []
     t0 = rng.uniform(40.0, 400.0) if finite else INF
-    ops.append(['add', 0, 'standard', INF, 0.0, [], t0, 'air', False, 0.0, 0.0, 0.0, 0.0])
+    mat0 = ['ideal', rng.uniform(1.2, 1.6)] if rng.random() < 0.25 else 'air'      # immersed object space
+    ops.append(['add', 0, 'standard', INF, 0.0, [], t0, mat0, False, 0.0, 0.0, 0.0, 0.0])
+    handbuilt = rng.random() < 0.25       # some surfaces enter as ready-made objects: add_surface(new_surface=...)
     nw = rng.choice([1, 1, 2, 3])
     wl = [[rng.choice([0.4861, 0.55, 0.5876, 0.6563]), rng.random() < 0.5] for _ in range(nw)]
     # one wavelength before the surfaces, the others interleaved
@@ -246,24 +278,33 @@ def gen_history(rng, nsurf=None, nedits=None, exotic=True, build_only=False, foc
         if use_dec and rng.random() < 0.4:
             dx, dy = rng.uniform(-0.3, 0.3), rng.uniform(-0.3, 0.3)
             rx, ry = rng.uniform(-0.03, 0.03), rng.uniform(-0.03, 0.03)
-        ops.append(['add', i, st, R, k, c, t, mat, i in stops, dx, dy, rx, ry])
+        if handbuilt and st == 'standard' and mat != 'mirror' and dx == 0.0 and rx == 0.0 and rng.random() < 0.4:
+            # ready-made Surface object; its vertex (running sum of the thicknesses) is filled in by place_ready
+            ops.append(['add_obj', i, 'standard', R, k, [], t, mat, i in stops, 0.0])
+        else:
+            ops.append(['add', i, st, R, k, c, t, mat, i in stops, dx, dy, rx, ry])
         kinds.append(ty)
         if len(wl) > 1 and rng.random() < 0.5:
             ops.append(['wavelength'] + wl.pop())
-    ops.append(['add', m + 1, 'standard', INF, 0.0, [], 0.0, 'air', False, 0.0, 0.0, 0.0, 0.0])
+    if handbuilt and rng.random() < 0.4:
+        ops.append(['add_obj', m + 1, 'image', INF, 0.0, [], 0.0, 'same', False, 0.0])     # explicit ImageSurface object
+    else:
+        ops.append(['add', m + 1, 'standard', INF, 0.0, [], 0.0, 'air', False, 0.0, 0.0, 0.0, 0.0])
     while len(wl) > 1:
         ops.append(['wavelength'] + wl.pop())
     ap = ['EPD', rng.uniform(3.0, 9.0)]
     if rng.random() < 0.15:
         ap = ['imageFNO', rng.uniform(3.0, 10.0)]
-    hist = {'ap': ap, 'ops': ops, 'nbuild': len(ops)}
+    elif finite and rng.random() < 0.35:
+        ap = ['objectNA', rng.uniform(0.02, 0.25)]
+    hist = {'ap': ap, 'ops': ops, 'nbuild': len(ops), 'route': 'reuse' if rng.random() < 0.15 else 'direct'}
     if build_only:
         return assign_types(rng, hist)
     n = m + 2
     ne = nedits if nedits is not None else rng.choice([0, 3, 8, 15, 30])
     has_stop = bool(stops)
     evens = [i + 1 for i, ty in enumerate(kinds) if ty == 'even']
-    ncoef = {o[1]: len(o[5]) for o in ops if o[0] == 'add'}
+    ncoef = {o[1]: len(o[5]) for o in ops if o[0] in ('add', 'add_obj')}
     weights = {'set_radius': 14, 'set_conic': 10, 'set_thickness': 14, 'set_index': 9, 'set_coeff': 6,
                'var': 14, 'pickup': 8, 'solve': 5, 'update': 8, 'image_solve': 3, 'wavelength': 3,
                'remove': 1 if exotic else 0, 'insert': 1 if exotic else 0, 'invalid': 2 if exotic else 0}
@@ -399,7 +440,7 @@ def _stop_of(ops):
     """index of the stop surface implied by the adds / removes so far (None if none)"""
     flags = []
     for o in ops:
-        if o[0] == 'add':
+        if o[0] in ('add', 'add_obj'):
             st = bool(o[8]) and o[1] != 0
             if st:
                 flags = [False] * len(flags)
@@ -413,8 +454,30 @@ def _stop_of(ops):
 # implementation driver
 # --------------------------------------------------------------------------
 def new_optic(hist):
+    """a fresh Optic, or (route 'reuse') an Optic that held a DIFFERENT lens with pickups / solves, was queried,
+    and then emptied with reset()"""
+    import numpy as np
     from optiland.optic import Optic
     o = Optic()
+    if hist.get('route') == 'reuse':
+        o.add_surface(index=0, thickness=123.0)
+        o.add_surface(index=1, radius=31.0, thickness=4.5, material='air', is_stop=True)
+        o.add_surface(index=2, radius=-44.0, thickness=17.25, conic=-0.3)
+        o.add_surface(index=3, radius=90.0, thickness=33.0)
+        o.add_surface(index=4)
+        o.set_aperture('EPD', 5.0)
+        o.set_field_type('angle')
+        o.add_field(y=1.0)
+        o.add_wavelength(0.61, is_primary=True)
+        o.add_wavelength(0.5)
+        o.pickups.add(1, 'radius', 2, scale=-1.0)
+        o.solves.add('marginal_ray_height', 4, 0.0)
+        o.set_thickness(2.0, 1)
+        try:
+            o.paraxial.f2(); o.paraxial.EPL(); o.update()
+        except Exception:     # noqa
+            pass
+        o.reset()
     o.set_aperture(hist['ap'][0], hist['ap'][1])
     o.set_field_type('angle')
     o.add_field(y=0.0)
@@ -445,6 +508,20 @@ def apply_op(o, op, ty=None):
                 kw[nm] = v
         m = mat if isinstance(mat, str) else IdealMaterial(n=C('n', mat[1]), k=0.0)
         o.add_surface(index=idx, surface_type=st, thickness=C('t', th), material=m, is_stop=bool(stop), **kw)
+    elif t == 'add_obj':
+        from optiland.surfaces import Surface, ImageSurface
+        from optiland.geometries import Plane, StandardGeometry
+        from optiland.coordinate_system import CoordinateSystem
+        _, idx, st, R, k, c, th, mat, stop, z = op
+        pre = o.surface_group.surfaces[idx - 1].material_post          # the medium behind the predecessor, the same object
+        cs = CoordinateSystem(z=float(z))
+        geo = Plane(cs) if math.isinf(R) else StandardGeometry(cs, C('R', R), C('k', k))
+        if st == 'image':
+            new = ImageSurface(geo, pre)
+        else:
+            post = pre if mat == 'same' else IdealMaterial(n=1.0, k=0.0) if mat == 'air' else IdealMaterial(n=C('n', mat[1]), k=0.0)
+            new = Surface(geo, pre, post, is_stop=bool(stop))
+        o.add_surface(new_surface=new, index=idx, thickness=C('t', th))
     elif t == 'remove':
         o.surface_group.remove_surface(op[1])
     elif t == 'set_radius':
@@ -716,7 +793,7 @@ def check_history(hist, stop_at_first=True):
         for i, op in enumerate(hist['ops']):
             t = op[0]
             nbefore = len(o.surface_group.surfaces)
-            before = quantities(o) if t not in ('add', 'wavelength') else None
+            before = quantities(o) if t not in ('add', 'add_obj', 'wavelength') else None
             obj_inf = nbefore > 0 and math.isinf(f1(o.surface_group.surfaces[0].geometry.cs.z))
             geom_before = [type(s.geometry).__name__ for s in o.surface_group.surfaces]
             hask_before = [hasattr(s.geometry, 'k') for s in o.surface_group.surfaces]
@@ -750,7 +827,7 @@ def check_history(hist, stop_at_first=True):
                 V('stop-count', count=ns)
             if nwv > 0 and npr != 1:
                 V('primary-count', count=npr)
-            if t == 'add':
+            if t in ('add', 'add_obj'):
                 if op[1] != nbefore:
                     structural = True
                     inorder = False
@@ -772,9 +849,15 @@ def check_history(hist, stop_at_first=True):
                     if mc is not None:
                         V('media-chain', surface=mc)
                     s = ss[-1]
-                    for nm, j in (('x', 9), ('y', 10), ('rx', 11), ('ry', 12)):
+                    for nm, j in ((('x', 9), ('y', 10), ('rx', 11), ('ry', 12)) if t == 'add' else ()):
                         if not feq(f1(getattr(s.geometry.cs, nm)), op[j]):
                             V('build-decentre', field=nm)
+                    # the surface carries what was entered: radius, index behind it
+                    if not req(float(s.geometry.radius), float(op[3])):
+                        V('build-value', field='radius', got=float(s.geometry.radius), expected=op[3])
+                    n_exp = None if op[7] in ('mirror', 'same') else 1.0 if op[7] == 'air' else op[7][1]
+                    if n_exp is not None and not feq(f1(s.material_post.n(W0)), n_exp):
+                        V('build-value', field='index', got=f1(s.material_post.n(W0)), expected=n_exp)
             elif t == 'remove':
                 structural = True
             elif target_of(op) is not None and not structural:
@@ -862,6 +945,8 @@ def op_valid(op, o):
     t = op[0]
     if t == 'add':
         return 0 <= op[1] <= n and not (op[7] == 'mirror' and op[1] == 0)
+    if t == 'add_obj':
+        return 1 <= op[1] <= n
     if t == 'remove':
         return 1 <= op[1] < n
     if t in ('set_radius', 'set_conic'):
@@ -926,6 +1011,28 @@ def launch_changed(o, pre_ya, pre_ua):
     return not (feq(f1(ya[0]), pre_ya[0], 1e-9) and feq(f1(ua[0]), pre_ua[0], 1e-9))
 
 
+def independent_marginal(o):
+    """marginal ray heights per surface from the APERTURE DEFINITION by matrix optics (tools/oracles.py,
+    independent of optiland's Paraxial class); None when not defined / not comparable (no stop, decentred
+    surfaces shift optiland's paraxial heights)"""
+    import oracles
+    import paraxcorr
+    try:
+        ps = paraxcorr.psurfs(o)
+    except Exception:     # noqa
+        return None
+    if any(abs(p_['y']) > 0 for p_ in ps) or len(ps) < 2:
+        return None
+    try:
+        q = oracles.abcd_quantities(ps, o.aperture.ap_type, float(o.aperture.value), 'angle', 0.0)
+    except Exception:     # noqa
+        return None
+    if 'marginal' not in q:
+        return None
+    ys = [0.0 if not math.isinf(ps[0]['z']) else q['EPD'] / 2] + [float(v[0]) for v in q['marginal']]
+    return ys if all(math.isfinite(v) for v in ys) else None
+
+
 def solve_violation(o, svs, pks, stage):
     if not svs:
         return None
@@ -943,6 +1050,15 @@ def solve_violation(o, svs, pks, stage):
             return {'clause': 'solve-height', 'solve': [idx, h], 'stage': stage, 'got': ya[idx],
                     'powered_surface': bool(powered), 'dependency': bool(dep), 'solves': svs,
                     'ua_before_surface': ua[idx - 1] if idx >= 1 else None, 'ua_after_surface': ua[idx]}
+    # the ray the solve works with must be THE marginal ray of the aperture definition
+    yi = independent_marginal(o)
+    if yi is not None:
+        for si, (idx, h) in enumerate(svs):
+            if idx < len(yi) and not feq(yi[idx], h, 1e-6) and feq(ya[idx], h, 1e-7):
+                return {'clause': 'solve-height', 'solve': [idx, h], 'stage': stage, 'got': yi[idx], 'independent_ray': True,
+                        'library_ray_height': ya[idx], 'aperture': [o.aperture.ap_type, float(o.aperture.value)],
+                        'object_index': f1(o.surface_group.surfaces[0].material_post.n(W0)), 'solves': svs,
+                        'first_surface_z': f1(o.surface_group.surfaces[1].geometry.cs.z)}
     return None
 
 
@@ -983,6 +1099,10 @@ def coq_op(op):
         m = 'MAir' if mat == 'air' else 'MMirror' if mat == 'mirror' else f'(MIdeal {fh(mat[1])})'
         return (f'AddSurface (O:=FOps) {z(idx)} {kind} {fh(R)} {fh(k)} {fl(c)} {fh(th)} {m} {b(stop)} '
                 f'{fh(dx)} {fh(dy)} {fh(rx)} {fh(ry)}')
+    if t == 'add_obj':
+        _, idx, st, R, k, c, th, mat, stop, zz = op
+        m = 'MAir' if mat == 'air' else 'MMirror' if mat == 'same' else f'(MIdeal {fh(mat[1])})'
+        return (f'AddReady (O:=FOps) {z(idx)} GStd {fh(R)} {fh(k)} [] {fh(zz)} {fh(th)} {m} {b(stop)} false')
     if t == 'remove':
         return f'RemoveSurface (O:=FOps) {z(op[1])}'
     if t == 'set_radius':
